@@ -282,7 +282,13 @@ func checkC08(c *Ctx) {
 				}
 			}
 			rr.Check(live && unsc, sdq.Name(), "filter only when not Unscoped", filter.Pos(), "!Unscoped", "the soft-delete filter is added even for Unscoped statements (or the guard is missing)")
-			rr.Check(live && facts.Has(fFalse("ok")), sdq.Name(), "filter only once (marker absent)", filter.Pos(), "marker checked", "the soft-delete filter is added without checking the marker: repeated modification stacks filters and defeats the missing-WHERE guard's count")
+			markerAbsent := false
+			for k := range softDeleteMarkerKeys(p) {
+				if localFact(sdq, facts, false, filter.Pos(), defIsMapLookupOK(clausesF, strings.Trim(k, `"`))) {
+					markerAbsent = true
+				}
+			}
+			rr.Check(live && markerAbsent, sdq.Name(), "filter only once (marker absent)", filter.Pos(), "marker checked", "the soft-delete filter is added without checking the marker: repeated modification stacks filters and defeats the missing-WHERE guard's count")
 			// regroup store: Clauses["WHERE"] = ... inside an if testing OrConditions
 			var store *ast.AssignStmt
 			ast.Inspect(sdq.Body, func(n ast.Node) bool {
